@@ -72,3 +72,22 @@ package verifspec
 //@   loop 3 invariant forall(k, 0, b, s.pendingDecls[k] == old(s.pendingDecls)[k])
 //@   loop 3 invariant forall(k, b, len(old(s.pendingDecls)), has(dceSelection, old(s.pendingDecls)[k]))
 //@   ensures forall(k, 0, len(old(s.pendingDecls)), has(result, old(s.pendingDecls)[k]))
+
+// ---- analysis.HasSideEffect: the visitor marks an initialiser as having a side effect at every call of a function
+// value (anything whose Fun has a signature type: functions, methods, closures, built-ins are not exempt) and at every
+// channel receive; once set the mark stays; any other node leaves it alone and the walk continues.  Variable
+// declarations whose initialiser carries the mark are DCE roots (compiler/decls.go).
+//@ pure hasSigType(e int) bool
+//@ extern go/types.Info.TypeOf
+//@   param info e
+//@   assigns nothing
+//@   ensures typeis(result, "*go/types.Signature") == hasSigType(key(e))
+//@ func compiler/internal/analysis.hasSideEffectVisitor.Visit
+//@ property C05
+//@   requires v != nil && v.info != nil
+//@   assigns v.hasSideEffect
+//@   panics_only_if true
+//@   ensures old(v.hasSideEffect) ==> v.hasSideEffect && w == nil
+//@   ensures typeis(node, "*go/ast.CallExpr") && hasSigType(key(asptr(ref(node), "go/ast.CallExpr").Fun)) ==> v.hasSideEffect
+//@   ensures typeis(node, "*go/ast.UnaryExpr") && asptr(ref(node), "go/ast.UnaryExpr").Op == 36 ==> v.hasSideEffect
+//@   ensures !old(v.hasSideEffect) && !typeis(node, "*go/ast.CallExpr") && !typeis(node, "*go/ast.UnaryExpr") ==> !v.hasSideEffect && w != nil
